@@ -68,6 +68,7 @@ type Spec struct {
 	MapOrder    bool              `json:"map_order_forks"`
 	Opaque      map[string]bool   `json:"opaque"`
 	Havoc       []string          `json:"havoc"` // functions replaced by "returns arbitrary results, no side effects"
+	InstrumentFS bool             `json:"instrument_fs"` // vfs.FS / vfs.File calls and syscall.Flock are scheduling points too
 	Instrument  []string          `json:"instrument"` // repo-relative kernel files instrumented with scheduling points for native replays
 	dir         string
 }
